@@ -47,6 +47,10 @@ class Gen:
             for (a, b, w) in r.sample(edges, min(len(edges), r.choice([1, 1, 2]))):
                 w2 = r.choice([x for x in (1, 2, 3, 5, 9) if x != w])
                 edges.append((a, b, w2)); self.dup_edges += 1
+        if not weighted and edges and r.random() < 0.25:
+            # a second insertion of an existing edge: it must be refused and must leave the edge in place
+            for (a, b, w) in r.sample(edges, min(len(edges), r.choice([1, 1, 2]))):
+                edges.append((a, b, 0)); self.dup_edges += 1
         return edges, perm
 
     def tree(self, depth, kind=None, singles_only=False, weighted=False, budget=12, nmax=None):
